@@ -1,10 +1,10 @@
 package main
 
 import (
-	"strconv"
 	"encoding/hex"
 	"fmt"
 	"sort"
+	"strconv"
 	"strings"
 	"time"
 
@@ -18,7 +18,9 @@ func bulkB(b []byte) redis.RespValue {
 	}
 	return redis.RespValue{Type: redis.BulkString, Text: b}
 }
-func arr(vs ...redis.RespValue) *redis.RespValue { return &redis.RespValue{Type: redis.Array, Array: vs} }
+func arr(vs ...redis.RespValue) *redis.RespValue {
+	return &redis.RespValue{Type: redis.Array, Array: vs}
+}
 
 func lowerASCII(b []byte) string {
 	c := append([]byte{}, b...)
